@@ -836,7 +836,9 @@ func (fx *FnExec) execInstr(st *State, in ssa.Instruction) {
 		fx.execTypeAssert(st, in)
 	case *ssa.MakeSlice:
 		ln, cp := fx.val(in.Len), fx.val(in.Cap)
-		fx.implicit(st, "makeslice", And(App("<=", SBool, TZero, ln), App("<=", SBool, ln, cp)))
+		// make panics for a negative length, len > cap, and a length beyond what can be allocated (the
+		// generator's allocation bound 2^48 stands for the latter: lengths of any integer type reach here)
+		fx.implicit(st, "makeslice", And(App("<=", SBool, TZero, ln), App("<=", SBool, ln, cp), App("<=", SBool, cp, Term{"281474976710656", SInt})))
 		et := in.Type().Underlying().(*types.Slice).Elem()
 		ref := fx.newRef(st, "mkslice")
 		key := fx.tc.ElemKey(et)
@@ -882,8 +884,9 @@ func (fx *FnExec) execInstr(st *State, in ssa.Instruction) {
 	case *ssa.Next:
 		fx.execNext(st, in)
 	case *ssa.Send:
-		// channel contents are not modelled: a send has no effect on tracked state
-		fx.val(in.X)
+		// channel contents are not modelled: a send has no effect on tracked state; `callsite chan.send` clauses
+		// see the channel and the value sent
+		fx.pseudoCallsite(st, in, "chan.send", []Term{fx.val(in.Chan), fx.val(in.X)}, []types.Type{in.Chan.Type(), in.X.Type()})
 	case *ssa.Select:
 		// channels are not modelled: which case fires is arbitrary, received values are arbitrary
 		n := len(in.States)
@@ -895,6 +898,9 @@ func (fx *FnExec) execInstr(st *State, in ssa.Instruction) {
 		fx.sc.Assume(And(App("<=", SBool, lo, idx), App("<", SBool, idx, IntLit(int64(n)))))
 		tup := []Term{idx, fx.sc.Fresh(in.Name()+"ok", SBool)}
 		for _, s := range in.States {
+			if s.Dir == types.SendOnly && s.Send != nil {
+				fx.pseudoCallsite(st, in, "chan.send", []Term{fx.val(s.Chan), fx.val(s.Send)}, []types.Type{s.Chan.Type(), s.Send.Type()})
+			}
 			if s.Dir == types.RecvOnly {
 				et := s.Chan.Type().Underlying().(*types.Chan).Elem()
 				v := fx.sc.Fresh(in.Name()+"rv", fx.tc.SortOf(et))
